@@ -51,8 +51,18 @@ def rand_scalar(rng):
     return Val("str", s, how=rng.choice(["dq", "sq"]))
 
 
+def deep_val(rng, depth):
+    """a list nested `depth` deep with few leaves: many brackets per token (stresses recursion budgets)"""
+    v = rand_scalar(rng) if rng.random() < 0.7 else Val("list", [])
+    for _ in range(depth):
+        v = Val("list", [v] if rng.random() < 0.7 else [v, rand_scalar(rng)])
+    return v
+
+
 def rand_val(rng, depth=0, allow_dict=True):
     r = rng.random()
+    if depth == 0 and r < 0.03:
+        return deep_val(rng, rng.randrange(4, 14))
     if depth < 4 and r < 0.18:
         return Val("list", [rand_val(rng, depth + 1, allow_dict=False) for _ in range(rng.randrange(0, 4))])
     if allow_dict and depth < 2 and r < 0.28:
